@@ -42,7 +42,7 @@ func ValuePool() []ugo.Object {
 		ugo.Array{}, ugo.Array{ugo.Int(1)}, ugo.Array{ugo.Uint(1)}, ugo.Array{ugo.Float(1), ugo.True},
 		ugo.Array{ugo.Int(1), ugo.Array{ugo.Char('a'), ugo.String("x")}},
 		ugo.Array{ugo.Float(97), ugo.Array{ugo.Int(97), ugo.Bytes("x")}},
-		ugo.Map{}, ugo.Map{"a": ugo.Int(1)}, ugo.Map{"a": ugo.True}, ugo.Map{"b": ugo.Int(1)},
+		ugo.Map{}, ugo.Map{"a": ugo.Int(1)}, ugo.Map{"a": ugo.True}, ugo.Map{"b": ugo.Int(1)}, ugo.Map{"a": ugo.Undefined}, ugo.Map{"b": ugo.Undefined},
 		ugo.Map{"a": ugo.Int(1), "b": ugo.Array{ugo.Uint(2)}},
 		ugo.Map{"a": ugo.Float(1), "b": ugo.Array{ugo.Int(2)}},
 		ugo.Map{"": ugo.Undefined},
